@@ -95,6 +95,37 @@ fn crafted() -> Vec<(String, Vec<KEv>)> {
         h.push(t(400));
         v.push((cfg, h));
     }
+    // the repeat key buffer (MultiKeyBuffer, 20 slots): one-shot keys accumulate their key codes
+    // there when the next ordinary key is pressed; 19 / 20 / 21 / 25 codes
+    for n in [19usize, 20, 21, 25] {
+        let cfg = "(defsrc a b)\n(deflayer l0 (one-shot 5000 lsft) b)\n".to_string();
+        let mut h = vec![];
+        for _ in 0..n {
+            h.push(p("a"));
+            h.push(t(2));
+            h.push(rl("a"));
+            h.push(t(2));
+        }
+        h.push(p("b"));
+        h.push(t(5));
+        h.push(rl("b"));
+        h.push(t(50));
+        v.push((cfg, h));
+        // the same through a five-key one-shot chord tapped n/5 times
+        let cfg = "(defsrc a b)\n(deflayer l0 (one-shot 5000 C-S-A-M-ralt) b)\n".to_string();
+        let mut h = vec![];
+        for _ in 0..(n + 4) / 5 {
+            h.push(p("a"));
+            h.push(t(2));
+            h.push(rl("a"));
+            h.push(t(2));
+        }
+        h.push(p("b"));
+        h.push(t(5));
+        h.push(rl("b"));
+        h.push(t(50));
+        v.push((cfg, h));
+    }
     // every key code the event loop can hand to `handle_input_event`, once. The loop forwards an
     // event untouched unless its code is in MAPPED_KEYS, and a mapped code is always below
     // KEYS_IN_ROW = 767 (process-unmapped-keys maps 0..KEYS_IN_ROW, defsrc/deflayermap/deflocalkeys
